@@ -12,6 +12,25 @@ NOT_BUILT = "check not built yet in this round (claimed by DESIGN.md; " \
             "listed here until its static check exists and is exact)"
 
 CHECKS = {
+    "C11": {
+        "text": "Field-write discipline of the figure-of-merit objectives "
+                "decided on AST and CFG: the write set of evaluate() and of "
+                "everything it reaches, the flag-guarded data collector, the "
+                "(equations, collect) paired-assignment invariant in every "
+                "method, write-before-read of the per-case result cells, "
+                "return values that are the failure constant or guarded by "
+                "0<=v<=1e100, and - in the surrogate optimizer - that "
+                "disabling initialize() and entering model mode are closed "
+                "again on every normal path before the loop repeats, before "
+                "process.evaluate and before returning.",
+        "design_ref": "DESIGN.md section 4, C11",
+        "note": "Decides D11.1-D11.5 (D11.6 = C16 D16.6). Does not decide "
+                "history dependence that lives inside scipy/numba. "
+                "Exceptional paths are not modelled.",
+        "technique": "effects / field-write analysis + CFG "
+                     "must-pass-through (pairing) + guard-condition "
+                     "matching",
+    },
     "C01": {
         "text": "Decides the clauses of packing feasibility that live in "
                 "the shape of the code: the rotation lemma on all weak "
